@@ -89,7 +89,7 @@ def run_check(pid, tier, seed):
     L = ldr.Loader(overrides=getattr(pm, "OVERRIDES", {}))
     from pyvc import session
     session._LOADER[0] = L
-    t_z3 = 20000 if tier == "quick" else 90000
+    t_z3 = 40000 if tier == "quick" else 120000
     funcs_ok, funcs_oor = [], []
     # ---- jobs: every (function, case) and every lemma is verified in its own worker process -------------------
     jobs = []
